@@ -358,3 +358,9 @@ KEEP += [
     ('K93', None, [(f, old, new, False) for f, old, new in _k93], None, ['C14', 'C10', 'C15', 'C12'],
      'parameters and locals renamed in non_colliding_offsets, compute_jacobian, the pose-list builder and the interpolating helper'),
 ]
+
+_k94 = _json.load(open(_os.path.join(_os.path.dirname(__file__), 'keep', 'K94_params_renamed.json')))
+KEEP += [
+    ('K94', None, [(f, old, new, False) for f, old, new in _k94], None, ['C13', 'C12'],
+     'parameters and locals renamed in the RRT planner glue and the bisection'),
+]
